@@ -706,10 +706,10 @@ class G:
                 fails.append({'node': n['id'], 'call': r.randrange(0, 5),
                               'when': self.pick(['pre', 'post']) if n.get('kind') in ('native', 'tornado') else 'pre'})
         if pf.get('window_survives_failure') and mode == 'loopless' and not feedback and self.chance(0.25):
-            # a consumer below a sliding_window raises once and the producer carries on: the windows that follow
-            # must still carry the metadata of exactly their own members
+            # a consumer below a sliding_window (or a collector) raises once and the producer carries on: the windows
+            # (batches) that follow must still carry the metadata of exactly their own members
             below = [n for n in self.graph if n['op'] == 'sink' and n.get('kind', 'sync') == 'sync'
-                     and self.graph[n['up'][0]]['op'] == 'sliding_window']
+                     and self.graph[n['up'][0]]['op'] in ('sliding_window', 'collect')]
             if below:
                 fails.append({'node': self.pick(below)['id'], 'call': r.randrange(0, 5), 'when': 'pre'})
         sc = {'format': 1, 'family': 'pipeline', 'property': self.prop, 'seed': seed, 'index': index,
